@@ -89,14 +89,14 @@ func pickKey(k1, k2 string) string {
 	return "len"
 }
 
-// pickVal: an arbitrary int, or nil. A built-in name is never bound to nil
-// (what a nil binding of a helper name means for later children is not fixed by
-// the property; see DESIGN.md C10).
+// pickVal: an arbitrary int, or nil - also under the name of a built-in helper:
+// a name bound to nil is bound (the built-in must not come back in later
+// children; this case was once excluded as unspecified, a sub-agent hunting on
+// the unchanged tree argued convincingly that the chain-of-scopes statement
+// does fix it, and plush was repaired: 78fba3a).
 func pickVal(key string) interface{} {
-	if !isHelper(key) {
-		if vrt.Bool() {
-			return nil
-		}
+	if vrt.Bool() {
+		return nil
 	}
 	return vrt.Int()
 }
